@@ -115,6 +115,7 @@ def run_case(case):
     ids = tuple(a[0] for a in spec["atoms"])
     fpb = f"{kind}:re{int(reorder)}:n{len(ids)}:steps{len(times)}"
     jumps = {"n": 0}
+    rseed = {"v": case["seed"]}
     nonid = {"n": 0}
     o_jump = mpi.NoisyMPSBackendImpl.do_random_quantum_jump
     o_save = mpi.MPSBackendImpl.save_simulation
@@ -146,8 +147,8 @@ def run_case(case):
 
         mpi.MPSBackendImpl.save_simulation = save
         try:
-            random.seed(case["seed"])
-            torch.manual_seed(case["seed"])
+            random.seed(rseed["v"])
+            torch.manual_seed(rseed["v"])
             res = emu_mps.MPSBackend(seq, config=mkcfg()).run()
             return res, state["k"]
         finally:
@@ -156,7 +157,12 @@ def run_case(case):
     try:
         with crash.workdir() as d, crash.fake_clock():
             try:
-                ref, nsaves = run_with(None, {})
+                for attempt in range(20):  # noisy runs: pick RNG seeds until the uninterrupted run contains a quantum jump
+                    rseed["v"] = case["seed"] + attempt
+                    jumps["n"] = 0
+                    ref, nsaves = run_with(None, {})
+                    if kind != "noisy" or jumps["n"] > 0:
+                        break
             except Exception as e:
                 return {"fp": fpb, "nontrivial": False, "violations": [{"key": f"C26:uninterrupted-run-raises:{type(e).__name__}", "msg": f"{fpb}: {e}"[:300], "detail": {"spec": spec}}],
                         "counters": cnt, "max": {}, "sample": None}
